@@ -103,12 +103,86 @@ func soupProgram(c *worker.Ctx) (string, bool) {
 	return b.String(), boundary
 }
 
+// directorProgram: backends behind a director of every type with boundary
+// weights, quorums and chash parameters; the request is sent through it.
+func directorProgram(c *worker.Ctx) string {
+	var b strings.Builder
+	nb := 1 + c.T.Draw(4)
+	for i := 0; i < nb; i++ {
+		fmt.Fprintf(&b, "backend F_b%d { .host = \"origin%d.test\"; .port = \"80\"; .first_byte_timeout = 5s; }\n", i, i)
+	}
+	typ := []string{"random", "fallback", "hash", "client", "chash"}[c.T.Draw(5)]
+	fmt.Fprintf(&b, "director d_main %s {\n", typ)
+	if c.T.Bool(1, 2) {
+		fmt.Fprintf(&b, "  .quorum = %d%%;\n", []int{0, 1, 50, 100, 101, 1000}[c.T.Draw(6)])
+	}
+	if typ == "random" && c.T.Bool(1, 2) {
+		fmt.Fprintf(&b, "  .retries = %d;\n", []int{0, 1, 3, 100}[c.T.Draw(4)])
+	}
+	if typ == "chash" {
+		if c.T.Bool(1, 2) {
+			fmt.Fprintf(&b, "  .key = %s;\n", []string{"object", "client"}[c.T.Draw(2)])
+		}
+		if c.T.Bool(1, 2) {
+			fmt.Fprintf(&b, "  .seed = %s;\n", []string{"0", "1", "4294967295", "9223372036854775807"}[c.T.Draw(4)])
+		}
+		if c.T.Bool(1, 2) {
+			fmt.Fprintf(&b, "  .vnodes_per_node = %s;\n", []string{"0", "1", "256", "8388607"}[c.T.Draw(4)])
+		}
+	}
+	nm := c.T.Draw(nb + 2)
+	for k := 0; k < nm; k++ {
+		w := []string{"0", "1", "2", "100", "999", "1000", "1001", "2147483647", "9223372036854775807"}[c.T.Draw(9)]
+		if typ == "fallback" && c.T.Bool(1, 2) {
+			fmt.Fprintf(&b, "  { .backend = F_b%d; }\n", c.T.Draw(nb))
+		} else {
+			fmt.Fprintf(&b, "  { .backend = F_b%d; .weight = %s; }\n", c.T.Draw(nb), w)
+		}
+	}
+	b.WriteString("}\n")
+	b.WriteString("sub vcl_recv {\n  set req.backend = d_main;\n")
+	if c.T.Bool(1, 3) {
+		b.WriteString("  set client.identity = req.http.X-A;\n")
+	}
+	fmt.Fprintf(&b, "  return(%s);\n}\n", []string{"lookup", "pass"}[c.T.Draw(2)])
+	return b.String()
+}
+
 // recursionProgram: recursive and mutually recursive subroutines and
 // functional subroutines; the call-depth guard must end them.
 func recursionProgram(c *worker.Ctx) string {
 	var b strings.Builder
 	b.WriteString("backend F_origin { .host = \"origin.test\"; .port = \"80\"; }\n")
-	switch c.T.Draw(4) {
+	switch c.T.Draw(7) {
+	case 4:
+		// call forms with argument lists that do and do not match the callee
+		callee := []string{"sub a { log \"a\"; }", "sub a(STRING var.x) { log var.x; }", "sub a(STRING var.x, INTEGER var.n) BOOL { return var.n > 0; }", "sub a() STRING { return \"s\"; }"}[c.T.Draw(4)]
+		args := []string{"", "()", "(\"x\")", "(\"x\", 1)", "(1, \"x\")", "(true, now, 1.5)", "(req.http.Not-Set, -1)"}[c.T.Draw(7)]
+		scope := []string{"vcl_recv", "vcl_fetch", "vcl_deliver", "vcl_error", "vcl_log"}[c.T.Draw(5)]
+		fmt.Fprintf(&b, "%s\nsub helper { call a%s; }\n", callee, args)
+		if scope == "vcl_recv" {
+			fmt.Fprintf(&b, "sub vcl_recv { call %s; return(lookup); }\n", []string{"helper", "a" + args}[c.T.Draw(2)])
+		} else {
+			fmt.Fprintf(&b, "sub vcl_recv { return(%s); }\nsub %s { call %s; }\n", []string{"lookup", "error"}[c.T.Draw(2)], scope, []string{"helper", "a" + args}[c.T.Draw(2)])
+		}
+	case 5, 6:
+		// state-changing statements inside functional subroutines, reached through call or an expression
+		act := []string{"restart;", "error 600;", "return(restart);", "return true;", "esi;", "return(lookup);", "synthetic \"x\";"}[c.T.Draw(7)]
+		wrap := act
+		if c.T.Bool(1, 2) {
+			wrap = "if (req.restarts < 10) { " + act + " }"
+		}
+		scope := []string{"vcl_recv", "vcl_hit", "vcl_fetch", "vcl_deliver", "vcl_error"}[c.T.Draw(5)]
+		use := []string{"call f();", "if (f()) { log \"t\"; }", "declare local var.b BOOL; set var.b = f();"}[c.T.Draw(3)]
+		fmt.Fprintf(&b, "sub f() BOOL { %s return false; }\n", wrap)
+		if scope == "vcl_recv" {
+			fmt.Fprintf(&b, "sub vcl_recv { %s return(lookup); }\n", use)
+		} else {
+			fmt.Fprintf(&b, "sub vcl_recv { return(%s); }\nsub vcl_fetch { set beresp.ttl = 60s; }\nsub %s { %s }\n", []string{"lookup", "error", "pass"}[c.T.Draw(3)], scope, use)
+			if scope == "vcl_fetch" {
+				// two definitions of vcl_fetch are concatenated by falco
+			}
+		}
 	case 0:
 		b.WriteString("sub a { call a; }\nsub vcl_recv { call a; return(lookup); }\n")
 	case 1:
@@ -212,7 +286,7 @@ func hostileRequest(c *worker.Ctx, i int) reqSpec {
 
 func runC08(c *worker.Ctx) {
 	res := c.Res
-	workload := c.T.Draw(7)
+	workload := c.T.Draw(8)
 	if v := os.Getenv("FALCOSIM_C08_WORKLOAD"); v != "" { // debugging aid: force one workload family
 		fmt.Sscanf(v, "%d", &workload)
 	}
@@ -253,6 +327,9 @@ func runC08(c *worker.Ctx) {
 		if vcl == "" {
 			vcl, wdesc = recursionProgram(c), "recursion"
 		}
+	case 7:
+		vcl, wdesc = directorProgram(c), "director"
+		boundary = true
 	default: // self-loop: the origin is the simulator itself
 		p := &programL{B: map[string]subBehaviour{}, Cacheable: false, TTL: 10 * time.Second}
 		if c.T.Bool(1, 2) {
